@@ -7,6 +7,7 @@ arithmetic is glue), `T` = `max_time` in ticks, `dur` = service duration in tick
 draws `u₁ = p₁/q`, `u₂ = p₂/q`.  Window bounds are whole time units (`.int()`), returned as `Int`.
 -/
 import Rl4co.Gen.Basic
+import Rl4co.Generated.Params
 namespace Rl4co.Gen.Cvrptw
 
 open Rl4co.Gen
@@ -40,10 +41,11 @@ def window (i : In) : Int × Int :=
   let mn := min a b
   let mx := max a b
   -- 7. repair equal bounds
+  -- the two integer offsets (`− 1`, `+ 1`) are extracted from the source: `Params.genCvrptwRepair`
   if mn = mx then
-    let mn' := max (distInt i) (mn - 1)
+    let mn' := max (distInt i) (mn + Params.genCvrptwRepair.1)
     if mn' = mx then
-      let mx' := min (upperFloor i) (max (ceilUnits (mn' * i.S + i.dur) i.S) (mx + 1))
+      let mx' := min (upperFloor i) (max (ceilUnits (mn' * i.S + i.dur) i.S) (mx + Params.genCvrptwRepair.2))
       (mn', mx')
     else (mn', mx)
   else (mn, mx)
